@@ -5,6 +5,8 @@ package domain
 import (
 	"context"
 
+	"github.com/synnaxlabs/x/errors"
+
 	xfs "github.com/synnaxlabs/x/io/fs"
 	"github.com/synnaxlabs/x/telem"
 )
@@ -254,5 +256,105 @@ func VerifC01LazyPersistReopen() {
 	after, ok := verifScan(ndb)
 	verifAssert("lazy-scan-after-reopen-ok", ok)
 	verifAssert("lazy-reopened-exact", verifSameContent(after, want))
+	verifReach("end")
+}
+
+// VerifC03Rollover: one writer commits several chunks of arbitrary size at arbitrary increasing end stamps on a
+// DB whose files are so small that commits roll over to new files, in front of a domain that already exists
+// later in time. A commit succeeds exactly when its range stays clear of the existing domain; whatever the
+// roll-overs, the index stays sorted and overlap-free, the writer's domains tile [start, last commit end)
+// without gaps, and a scan returns exactly the committed bytes in order.
+func VerifC03Rollover() {
+	fs := xfs.NewMem()
+	db, err := Open(Config{FS: fs, FileSize: 5, GCThreshold: 0.25})
+	if err != nil {
+		panic(err)
+	}
+	ctx := context.Background()
+	no := false
+	// the neighbour later in time
+	nw, err := db.OpenWriter(ctx, WriterConfig{Start: 500, EnableAutoCommit: &no})
+	if err != nil {
+		panic(err)
+	}
+	_, _ = nw.Write([]byte{0xEE})
+	if err = nw.Commit(ctx, 600); err != nil {
+		panic(err)
+	}
+	_ = nw.Close()
+
+	w, err := db.OpenWriter(ctx, WriterConfig{Start: 100, EnableAutoCommit: &no})
+	if err != nil {
+		panic(err)
+	}
+	rounds := verifParam("rounds", 3)
+	var committed []byte
+	prevEnd := telem.TimeStamp(100)
+	next := byte(1)
+	for r := 0; r < rounds; r++ {
+		n := verifLen("chunk", 1, 3)
+		chunk := make([]byte, n)
+		for i := range chunk {
+			chunk[i] = next
+			next++
+		}
+		if _, err = w.Write(chunk); err != nil {
+			panic(err)
+		}
+		end := telem.TimeStamp(verifInt64("end"))
+		verifAssume(end > prevEnd && end <= 700)
+		cerr := w.Commit(ctx, end)
+		clear := end <= 500
+		verifAssert("rollover-commit-ok-iff-clear-of-neighbour", (cerr == nil) == clear)
+		if cerr != nil {
+			verifAssert("rollover-conflict-is-write-conflict", errors.Is(cerr, ErrWriteConflict))
+			break
+		}
+		committed = append(committed, chunk...)
+		prevEnd = end
+	}
+	_ = w.Close()
+	ptrs := db.idx.mu.pointers
+	verifAssert("rollover-index-invariant", verifHInvIndex(ptrs))
+	// the writer's domains tile [100, prevEnd)
+	tiles := true
+	cursor := telem.TimeStamp(100)
+	for _, p := range ptrs {
+		if p.Start >= 500 {
+			continue
+		}
+		if p.Start != cursor {
+			tiles = false
+		}
+		cursor = p.End
+	}
+	if len(committed) > 0 && cursor != prevEnd {
+		tiles = false
+	}
+	mine := 0
+	for _, p := range ptrs {
+		if p.Start < 500 {
+			mine++
+		}
+	}
+	if mine >= 2 {
+		verifReach("rollover-happened") // vacuity witness
+	}
+	verifAssert("rollover-domains-tile-the-committed-range", tiles)
+	got, ok := verifScan(db)
+	verifAssert("rollover-scan-ok", ok)
+	var bytesGot []byte
+	for _, c := range got {
+		if c.tr.Start < 500 {
+			bytesGot = append(bytesGot, c.data...)
+		}
+	}
+	same := len(bytesGot) == len(committed)
+	for i := range bytesGot {
+		if i < len(committed) && bytesGot[i] != committed[i] {
+			same = false
+		}
+	}
+	verifAssert("rollover-scan-returns-committed-bytes-in-order", same)
 	verifReach("end")
 }
